@@ -411,6 +411,46 @@ class CFG(object):
             k for k, v in fin.items() if v is TOP
         }
 
+    def replay_paths(self, prog=None, max_paths=4000, kill_on_suspend=True):
+        """Independent cross-check of must_facts: enumerate entry->exit/raise paths (loops unrolled once), replay
+        the transfer function along each explicit path and verify that every fact the dataflow claims at a node
+        holds on that path.  Returns (paths, node visits checked, mismatches, truncated)."""
+        facts, _unreach = self.must_facts(prog, kill_on_suspend=kill_on_suspend)
+        kills = {n.id: self._kills(n, prog) for n in self.nodes}
+        gens = {n.id: _gens(n) for n in self.nodes}
+        paths = []
+        for dst in (self.exit.id, self.raise_exit.id):
+            paths += self.paths(self.entry.id, dst, max_paths=max_paths - len(paths))
+            if len(paths) >= max_paths:
+                break
+        checks = 0
+        mismatches = []
+        for p in paths:
+            state = frozenset()
+            for i, x in enumerate(p):
+                checks += 1
+                missing = facts[x] - state
+                if missing and len(mismatches) < 5:
+                    mismatches.append((self.func.qname, self.nodes[x].lineno, sorted(missing)[:3]))
+                if i + 1 == len(p):
+                    break
+                n = self.nodes[x]
+                nxt = p[i + 1]
+                labs = [lab for t, lab in self.succ[x] if t == nxt]
+                susp = n.suspends and kill_on_suspend
+                base = _apply_kill(state, kills[x], susp)
+                # several labels to the same successor: take the weakest (intersection) to stay conservative
+                outs = []
+                for lab in labs:
+                    if lab == ("exc",):
+                        outs.append(base)
+                    elif lab and lab[0] == "cond":
+                        outs.append((base | gens[x]) | cond_atoms(lab[1], lab[2]))
+                    else:
+                        outs.append(base | gens[x])
+                state = frozenset.intersection(*outs) if outs else base
+        return len(paths), checks, mismatches, len(paths) >= max_paths
+
     def _kills(self, n, prog):
         """Set of attr chains written by node n (own effects)."""
         killed = set()
